@@ -161,7 +161,9 @@ func (p *Parser) ParseProgram() *ast.Statements {
 		program.Statements = append(program.Statements, stmt)
 		p.nextToken()
 	}
-
+	if p.l.OpenString() { // also at the start of a statement, where the end of line is not a surprise.
+		p.continuationNeeded = true
+	}
 	return program
 }
 
